@@ -15,6 +15,7 @@ structure Port where
   nW : Nat := 0
   nR : Nat := 0
   nF : Nat := 0
+  nE : Nat := 0                     -- Reads that delivered nothing (end of data or an error)
   written : List Bytes := []       -- successful writes, newest first
   deriving Repr
 
@@ -25,9 +26,9 @@ def Port.write (p : Port) (b : Bytes) : Port × Bool :=
 
 /-- `none`: the read failed (error or end of data); `some d`: it delivered chunk `d`. -/
 def Port.read (p : Port) : Port × Option Bytes :=
-  if p.rFail.contains p.nR then ({ p with nR := p.nR + 1 }, none)
+  if p.rFail.contains p.nR then ({ p with nR := p.nR + 1, nE := p.nE + 1 }, none)
   else match p.queue with
-    | [] => ({ p with nR := p.nR + 1 }, none)
+    | [] => ({ p with nR := p.nR + 1, nE := p.nE + 1 }, none)
     | c :: cs => ({ p with nR := p.nR + 1, queue := cs }, some c)
 
 def Port.flush (p : Port) : Port :=
